@@ -1,3 +1,4 @@
 -- family index: C11 C12 C13 C14 C16.  Everything listed here must build: it is part of `lake build`.
 import Thanos.Driver.Index
 import Thanos.Props.C13
+import Thanos.Props.C12
